@@ -7,7 +7,7 @@
   separately (Mashu.ToDict, property C08); here the dataclass case is the resulting
   behaviour.
 -/
-import Mashu.Ty
+import Mashu.ConfB
 namespace Mashu
 
 /-- Field context carried for error reporting. -/
@@ -23,26 +23,35 @@ def firstOk {α β} (f : α → R β) : List α → Option β
     | .error _ => firstOk f as
 
 /-- `value.__class__` for the basic scalars. -/
-inductive PyCls | none | bool | int | float | str | other
+inductive PyCls | none | bool | int | float | str | leaf (k : Leaf) | list | dict | other
   deriving DecidableEq, Repr
 
 def classOf : V → PyCls
   | .none => .none | .bool _ => .bool | .int _ => .int | .float _ => .float | .str _ => .str
+  | .leaf k _ => .leaf k
+  | .coll .list _ => .list
+  | .map .dict _ => .dict
   | _ => .other
 
 /-- the class a scalar annotation stands for (for the `value.__class__ in (...)` test) -/
 def Ty.scalarCls : Ty → PyCls
   | .none => .none | .bool => .bool | .int => .int | .float => .float | .str => .str
+  | .leaf k => .leaf k
+  | .coll .list _ => .list
+  | .map .dict _ _ => .dict
   | _ => .other
 
 /-- Is the packer expression the bare value (`"value"`)? -/
-def Ty.packIdent : Ty → Bool
+def Ty.packIdent (cx : Cx) : Ty → Bool
   | .any | .none | .bool | .int | .float | .str => true
+  | .leaf k => cx.passLeaves.contains k
   | .union ts => identAll ts
+  | .coll .list t => cx.noCopyList && t.packIdent cx
+  | .map .dict k t => cx.noCopyDict && k.packIdent cx && t.packIdent cx
   | _ => false
 where identAll : List Ty → Bool
   | [] => true
-  | t :: ts => t.packIdent && identAll ts
+  | t :: ts => t.packIdent cx && identAll ts
 
 /-- `value.copy()` -/
 def pyCopy : V → R V
@@ -50,6 +59,7 @@ def pyCopy : V → R V
   | .coll .set vs => .ok (.coll .set vs)
   | .coll .frozenset vs => .ok (.coll .frozenset vs)
   | .coll .deque vs => .ok (.coll .deque vs)
+  | .coll .chainmap ms => .ok (.coll .chainmap ms)
   | .map .mproxy kvs => .ok (.map .dict kvs)
   | .map o kvs => .ok (.map o kvs)
   | _ => raisePy .attributeError
@@ -99,12 +109,17 @@ def pack (O : Oracle) (cx : Cx) (fx : Fx) : Ty → V → R V
   | .int, v => .ok v
   | .float, v => .ok v
   | .str, v => .ok v
-  | .leaf k, v => O.run (.print k) v
-  | .enum _ ms, v =>
+  | .leaf k, v => if cx.passLeaves.contains k then .ok v else O.run (.print k) v
+  | .enum cls ms, v =>
       match v with
-      | .enum _ m => match ms.lookup m with
-          | some x => .ok x
-          | none => raisePy .other
+      | .enum c m =>
+          if c == cls then
+            match ms.lookup m with
+            | some x => .ok x
+            | none => raisePy .other
+          else match O.enumValue c m with   -- `value.value` works on a member of any enum
+            | some x => .ok x
+            | none => raisePy .other
       | _ => raisePy .attributeError
   | .lit vals, v =>
       match vals.find? (fun cw => O.eq v cw.1) with
@@ -112,7 +127,7 @@ def pack (O : Oracle) (cx : Cx) (fx : Fx) : Ty → V → R V
           -- the packer of `type(literal)` is applied to the runtime value
           match cw.1 with
           | .none | .bool _ | .int _ | .str _ => .ok v
-          | .leaf .bytes _ => O.run (.print .bytes) v
+          | .leaf .bytes _ => if cx.passLeaves.contains .bytes then .ok v else O.run (.print .bytes) v
           | .enum _ _ => .ok cw.2
           | _ => raisePy .other
       | none => if cx.nailed then .error (.invalidFieldValue fx.field v fx.holder) else .error (.unionNoMatch v)
@@ -121,19 +136,20 @@ def pack (O : Oracle) (cx : Cx) (fx : Fx) : Ty → V → R V
       | .none => .ok .none
       | _ => pack O cx fx t v
   | .union ts, v =>
-      if Ty.packIdent.identAll ts then .ok v
-      else if (ts.any (fun t => t.packIdent && t.scalarCls != .other && t.scalarCls == classOf v)) then .ok v
+      if cx.fixK10 then packSpecU O cx fx ts v
+      else if Ty.packIdent.identAll cx ts then .ok v
+      else if (ts.any (fun t => t.packIdent cx && t.scalarCls != .other && t.scalarCls == classOf v)) then .ok v
       else match packFirst O cx fx ts v with
         | some r => .ok r
         | none => if cx.nailed then .error (.invalidFieldValue fx.field v fx.holder) else .error (.unionNoMatch v)
   | .coll o t, v =>
-      if o == .list && t.packIdent then pyCopy v
+      if o == .list && t.packIdent cx then (if cx.noCopyList then .ok v else pyCopy v)
       else do
-        let xs ← pyIter v
+        let xs ← pyIterO O v
         let r ← xs.mapM (pack O cx fx t)
         pure (.coll .list r)
   | .map o k t, v =>
-      if o == .dict && k.packIdent && t.packIdent then pyCopy v
+      if o == .dict && k.packIdent cx && t.packIdent cx then (if cx.noCopyDict then .ok v else pyCopy v)
       else do
         let kvs ← pyItems v
         let r ← kvs.mapM (kvM (pack O cx fx k) (if o == .counter then pure else pack O cx fx t))
@@ -145,7 +161,7 @@ def pack (O : Oracle) (cx : Cx) (fx : Fx) : Ty → V → R V
           pure (.coll .list r)
       | _ => raisePy .attributeError
   | .tvar t, v => do
-      let xs ← pyIter v
+      let xs ← pyIterO O v
       let r ← xs.mapM (pack O cx fx t)
       pure (.coll .list r)
   | .tfix ts, v => do
@@ -175,11 +191,16 @@ def pack (O : Oracle) (cx : Cx) (fx : Fx) : Ty → V → R V
             pure (.map .dict (es.map (fun e => (V.str e.key, e.val))))
       | _ => raisePy .attributeError
 
+/-- reference behaviour: the packer of the first member the value conforms to -/
+def packSpecU (O : Oracle) (cx : Cx) (fx : Fx) : List Ty → V → R V
+  | [], v => if cx.nailed then .error (.invalidFieldValue fx.field v fx.holder) else .error (.unionNoMatch v)
+  | t :: ts, v => if conf t v then pack O cx fx t v else packSpecU O cx fx ts v
+
 /-- first member (in order) whose non-identity packer succeeds -/
 def packFirst (O : Oracle) (cx : Cx) (fx : Fx) : List Ty → V → Option V
   | [], _ => none
   | t :: ts, v =>
-      if t.packIdent then packFirst O cx fx ts v
+      if t.packIdent cx then packFirst O cx fx ts v
       else match pack O cx fx t v with
         | .ok r => some r
         | .error _ => packFirst O cx fx ts v
